@@ -201,6 +201,17 @@ def confirm(prop, part, witness, workdir, tries):
     return rep, runs, late
 
 
+def confirm_job(args):
+    prop, pi, w, workdir, tries = args
+    import props
+    if tries == 0 or pi is None:
+        return 0, 0, 0
+    try:
+        return confirm(prop, props.PROPS[prop]['parts'][pi], w, workdir, tries)
+    except Exception:
+        return 0, 0, 0
+
+
 def main():
     ap = argparse.ArgumentParser()
     ap.add_argument('prop')
@@ -286,20 +297,26 @@ def check(prop, spec, a, workdir, known, t0):
     # confirm unknown violations (verdict discipline: quiescence must survive a real-time grace)
     violations = []
     unconfirmed = []
-    partmap = {p['name']: p for p in spec['parts']}
-    for sig, xs in unknown.items():
+    jobs = []
+    for n, (sig, xs) in enumerate(unknown.items()):
         w = xs[0]
-        part = partmap[w['case']['scenarios'][0]['id'].split('-')[1]] if False else None
-        # find the part by scenario id prefix
-        for p_ in spec['parts']:
+        pi = None
+        for i_, p_ in enumerate(spec['parts']):
             if w['case']['scenarios'][0]['id'].startswith(f"{prop}-{p_['name']}-"):
-                part = p_
+                pi = i_
         multi = any((sc.get('runtime') or {}).get('flavor') == 'multi' or any(o.get('op') in ('race', 'twins', 'starts') for o in sc.get('ops') or []) for sc in w['case']['scenarios'])
-        rep, runs, late = confirm(prop, part, w, os.path.join(workdir, 'confirm'), 12 if multi else 2)
+        # bounded effort: the first 48 signatures are re-run, the rest are reported from the first observation alone
+        tries = (6 if multi else 2) if n < 48 else 0
+        jobs.append((prop, pi, w, os.path.join(workdir, f'confirm{n}'), tries))
+    if jobs:
+        with multiprocessing.Pool(min(NWORK, len(jobs))) as pool:
+            conf = pool.map(confirm_job, jobs, chunksize=1)
+    else:
+        conf = []
+    for (sig, xs), (rep, runs, late) in zip(unknown.items(), conf):
+        w = xs[0]
         info = {'sig': sig, 'count': vcounts[sig], 'detail': w['v']['detail'], 'reproduced': f'{rep}/{runs}', 'late_activity_runs': late, 'witness': w}
-        if late and rep == 0:
-            unconfirmed.append(info)
-        elif late and rep > 0 and late >= runs:
+        if late and (rep == 0 or late >= runs):
             unconfirmed.append(info)
         else:
             violations.append(info)
